@@ -1,3 +1,4 @@
+pub mod backend_race;
 pub mod c01;
 pub mod c02;
 pub mod c03;
@@ -50,6 +51,7 @@ pub fn replay_file(path: &std::path::Path) -> i32 {
             }
         }
         "c02-race" => verdict(v["property"].as_str().unwrap_or("C02"), path, c02::replay(case)),
+        "backend-race" => verdict(v["property"].as_str().unwrap_or("C02"), path, backend_race::replay(case)),
         "c07-trace" => verdict("C07", path, c07::replay(case)),
         "c15-trace" => verdict("C15", path, c15::replay(case)),
         "c19-trace" => verdict("C19", path, c19::replay(case)),
